@@ -401,7 +401,7 @@ PROPS = {
         clauses=[
             ['binary writer: content == concatenation of sysex encodings, non-sysex dropped, any payload length (lists up to 3)', 'P'],
             ['reader structure: empty -> [], F0 -> parser, else latin1 + whitespace strip + fromhex; only sysex kept; ValueError propagates', 'PA'],
-            ['round trip both formats, whitespace layouts, non-hex text -> ValueError, payload 0..5000', 'B'],
+            ['round trip both formats, whitespace layouts, non-hex text -> ValueError, payload 0..5000 in mixed lists, single payloads up to 350000', 'B'],
         ],
         assumptions=['open()/file object model', 're.sub and bytearray.fromhex behave as documented', 'Parser contract (proved in C04/C05) composes with the reader'],
         trusted_base=[],
